@@ -70,6 +70,9 @@ func (m *Machine) stub(fn *ssa.Function, args []Value) (Value, bool) {
 	if r, ok := m.intrinsic(name, fn, args); ok {
 		return r, true
 	}
+	if r, ok := m.dolevYao(name, fn, args); ok {
+		return r, true
+	}
 	switch {
 	case strings.Contains(name, "github.com/go-i2p/logger") || strings.Contains(name, "sirupsen/logrus"):
 		if results.Len() == 1 {
@@ -419,15 +422,24 @@ func (m *Machine) sigValid(lib bool, alg string, key, msg, sig []*Term) *Term {
 }
 
 type hashApp struct {
+	fn  string
 	in  []*Term
 	out []*Term
+	inj bool
 }
 
 // idealHash: 32 fresh bytes per distinct input; equal inputs give equal digests (memo on
 // identical cell lists, Ackermann constraint between same-length inputs otherwise).
 func (m *Machine) idealHash(in []*Term) []*Term {
+	return m.idealFn("sha256", in, 32, false)
+}
+
+// idealFn is an uninterpreted function fn: bytes -> n bytes, realised over a per-path log: identical argument
+// lists return the same cells, same-length argument lists get the congruence constraint, and (inj, or after
+// nd.AssumeHashInjective for sha256) different arguments get different results.
+func (m *Machine) idealFn(fn string, in []*Term, n int, inj bool) []*Term {
 	for _, a := range m.hashLog {
-		if len(a.in) == len(in) {
+		if a.fn == fn && len(a.in) == len(in) {
 			same := true
 			for i := range in {
 				if in[i] != a.in[i] {
@@ -440,12 +452,16 @@ func (m *Machine) idealHash(in []*Term) []*Term {
 			}
 		}
 	}
-	out := make([]*Term, 32)
+	out := make([]*Term, n)
 	m.varSeq++
 	for i := range out {
-		out[i] = m.tt.Var(8, fmt.Sprintf("H%d_%d", m.varSeq, i))
+		out[i] = m.tt.Var(8, fmt.Sprintf("F%d_%d", m.varSeq, i))
 	}
+	app := hashApp{fn, in, out, inj}
 	for _, a := range m.hashLog {
+		if a.fn != fn {
+			continue
+		}
 		if len(a.in) == len(in) {
 			eq := m.tt.Bool(true)
 			for i := range in {
@@ -457,13 +473,11 @@ func (m *Machine) idealHash(in []*Term) []*Term {
 			}
 			m.sol().Assert(m.tt.Or(m.tt.Not(eq), same))
 		}
-	}
-	if m.hashInjective {
-		for _, a := range m.hashLog {
-			m.assertHashInjective(a, hashApp{in, out})
+		if inj || (fn == "sha256" && m.hashInjective) {
+			m.assertHashInjective(a, app)
 		}
 	}
-	m.hashLog = append(m.hashLog, hashApp{in, out})
+	m.hashLog = append(m.hashLog, app)
 	return out
 }
 
